@@ -248,6 +248,7 @@ FINDINGS = {
     'cut': 'C11-used-bits-cut-proportionally-when-bit-sequences-differ-in-length',
     'lead': 'C11-leading-zero-length-bit-pulse-after-pause-moves-previous-edge',
     'trail': 'C11-tail-not-merged-after-trailing-zero-length-bit-pulse',
+    'clip': 'C11-datablock-end-past-edge-list-when-dropped-tail-belongs-to-earlier-block',
 }
 
 def edges_agree(E, m, tbs):
@@ -269,7 +270,20 @@ def classify(fmt, tbs, tags, obs=None, opts=None, m=None):
     """-> finding id or None. tags: set of mechanism tags of the failed conditions. A finding id is returned only when the
     tape has the mechanism's shape AND the observed edge list is exactly what the physical model plus the named
     mechanism(s) predicts (smallest set of mechanisms that explains it)."""
-    if obs is None or obs.edges is None or tbs is None or m is None or not m.preds:
+    if obs is None or obs.edges is None or tbs is None or m is None:
+        return None
+    if tags == {'range'} and m.tail_block is not None:
+        # the dropped tail edge belongs to a block that is followed by another data block producing no edge (all its bit
+        # pulses have zero length): only the last DataBlock is clipped, the owner's end stays one past the list
+        n = len(obs.edges)
+        owner = sum(1 for tb in tbs[:m.tail_block + 1] if tb.data) - 1      # position of the owner among the reported data blocks
+        withdata = [d for d in obs.dbs if d[0]]
+        out = [k for k, (data, s, e) in enumerate(obs.dbs) if not (0 <= s <= e < n)]
+        if (len(withdata) == len(obs.dbs) and out == [owner] and owner < len(obs.dbs) - 1 and obs.dbs[owner][2] == n
+                and all(tb.has_zero_seq() and not tb.tail and not any(tm._bit_durations(tb)) for tb in tbs[m.tail_block + 1:] if tb.data)):
+            return FINDINGS['clip']
+        return None
+    if not m.preds:
         return None
     if not tags <= {'edges', 'zero-seq', 'dbrange', 'decode', 'bits'}:
         return None
